@@ -8,7 +8,7 @@ from concurrent.futures import ThreadPoolExecutor
 from . import core
 
 
-def drive(family, prop, seed, tier, n, parts, extra=None):
+def drive(family, prop, seed, tier, n, parts, extra=None, tagx=""):
     """Runs `n` scenarios of a family, split over `parts` trace files."""
     d = core.workdir(prop.lower())
     files = []
@@ -19,7 +19,7 @@ def drive(family, prop, seed, tier, n, parts, extra=None):
         hi = min(n, (k + 1) * per)
         if lo > hi:
             break
-        path = os.path.join(d, "%s_%d.ndjson" % (family, k))
+        path = os.path.join(d, "%s%s_%d.ndjson" % (family, tagx, k))
         args = [family, "--from", lo, "--to", hi, "--out", path, "--seed", seed, "--tier", tier] + (extra or [])
         jobs.append((path, args))
     with ThreadPoolExecutor(max_workers=parts) as ex:
@@ -129,8 +129,8 @@ def run_group(prop, tier, seed, t0, families, module, cfg, prefixes, mcs, need_h
         family, extra = fam[0], fam[1]
         fmodule, fcfg = (fam[2], fam[3]) if len(fam) > 3 else (module, cfg)
         fn = (fam[5] if tier == "thorough" else fam[4]) if len(fam) > 5 else n
-        files, _ = drive(family, prop, seed, tier, fn, 8 if tier == "thorough" else 4, extra)
-        results = validate(fmodule, fcfg, files, prop.lower() + "-" + family)
+        files, _ = drive(family, prop, seed, tier, fn, 8 if tier == "thorough" else 4, extra, "-" + fmodule)
+        results = validate(fmodule, fcfg, files, prop.lower() + "-" + family + "-" + fmodule)
         tot, h, fo = collect(prop, prefixes, results, files, v, {"family": family, "seed": seed, "tier": tier})
         total += tot
         hits |= h
@@ -163,7 +163,8 @@ def run_group(prop, tier, seed, t0, families, module, cfg, prefixes, mcs, need_h
 
 
 FAMILY_MODULE = {"respond": ("TraceRespond", "TraceRespond.cfg"), "browse": ("TraceBrowse", "TraceBrowse.cfg"),
-                 "resolve": ("TraceBrowse", "TraceBrowse.cfg"), "flood": ("TraceBrowse", "TraceBrowse.cfg")}
+                 "resolve": ("TraceBrowse", "TraceBrowse.cfg"), "flood": ("TraceBrowse", "TraceBrowse.cfg"),
+                 "silent": ("TraceBrowse", "TraceBrowse.cfg")}
 
 
 def replay_group(path, module, cfg, prefixes, prop):
@@ -177,6 +178,10 @@ def replay_group(path, module, cfg, prefixes, prop):
     a = c["args"]
     out = os.path.join(core.workdir(prop.lower()), "replay.ndjson")
     core.harness([a["family"], "--from", sid, "--to", sid, "--out", out, "--seed", a["seed"], "--tier", a["tier"]])
-    res = validate(module, cfg, [out], prop.lower() + "-replay")
-    collect(prop, prefixes, res, [out], v, a)
+    mods = [(module, cfg)]
+    if a["family"] == "silent":
+        mods.append(("TraceRespond", "TraceRespond.cfg"))
+    for (m, c) in mods:
+        res = validate(m, c, [out], prop.lower() + "-replay")
+        collect(prop, prefixes, res, [out], v, a)
     return v.finish()
